@@ -59,7 +59,7 @@ HOT = ['frompickle-mem', 'fromcsv-mem', 'fromcsv-path',
 def budget(tier):
     if tier == 'quick':
         return {'cases': 24000, 'wall_cap_s': 240}
-    return {'cases': 1200000, 'wall_cap_s': 1500}
+    return {'cases': 800000, 'wall_cap_s': 1500}
 
 
 def gen_case(rng, tier, g):
@@ -127,6 +127,8 @@ def gen_case(rng, tier, g):
                      ['DROPVIEW', rng.randrange(nviews)])
     case = {'prop': PROP, 'stack': stack, 'tables': tables, 'steps': steps,
             'shape': shape,
+            'rows': rng.choice(['alias', 'alias', 'copy']),
+            'wrap': rng.random() < 0.15,
             'config': draw_config(rng, 0.12, exclude=('sort_buffersize',)),
             'knobs': {'sort_buffersize': rng.choice([None, None, 2, 3])}}
     if fork:
@@ -165,7 +167,10 @@ def run_case(case):
             why = None
             try:
                 expected = solo_reference(e, stack, case['tables'],
-                                          tempdir=sb.path)
+                                          mode=case.get('rows', 'alias'),
+                                          tempdir=sb.path,
+                                          wrap_sources=case.get('wrap',
+                                                                False))
                 if case.get('fork'):
                     expected = expected[:1] + _fork_reference(
                         e, stack, case, sb.path)
@@ -179,7 +184,9 @@ def run_case(case):
                                nontrivial=False,
                                extra={'group': group, 'why': why})
             log.add('expected', expected)
-            w, views = build(e, stack, case['tables'], tempdir=sb.path)
+            w, views = build(e, stack, case['tables'], tempdir=sb.path,
+                             mode=case.get('rows', 'alias'),
+                             wrap_sources=case.get('wrap', False))
             if case.get('fork'):
                 views = views[:1] + _forks(e, w, views[0], case['fork'])
             sch = Sched(views, expected, log=log, items=is_items(stack))
@@ -245,7 +252,9 @@ def _fork_reference(e, stack, case, tempdir):
     from sim.canon import canon_row
     out = []
     for i in range(len(case['fork'])):
-        w, views = build(e, stack, case['tables'], tempdir=tempdir)
+        w, views = build(e, stack, case['tables'], tempdir=tempdir,
+                         mode=case.get('rows', 'alias'),
+                         wrap_sources=case.get('wrap', False))
         try:
             fv = _forks(e, w, views[0], case['fork'])[i]
             rows = []
